@@ -12,6 +12,7 @@ REGISTRY = {
     "C19": ("harness.checks.grade_check", "C19"),
     "C16": ("harness.checks.quad_check", "C16"),
     "C18": ("harness.checks.curves_check", "C18"),
+    "C17": ("harness.checks.assembly_check", "C17"),
 }
 
 
